@@ -1,7 +1,11 @@
 package checks
 
 import (
+	"encoding/json"
 	"fmt"
+	"github.com/go-openapi/spec"
+	"github.com/go-openapi/strfmt"
+	"github.com/go-openapi/validate"
 	"strings"
 
 	"github.com/go-openapi/validate/verifrt"
@@ -162,6 +166,9 @@ func c11worker(c *hx.Ctx) int {
 	if generated {
 		depth-- // the 132 generated workloads get shorter follow-up sequences
 	}
+	if dryOut.Panic == "" {
+		c11sameObject(w, K, rep, sets)
+	}
 	for k := 1; k <= K; k++ {
 		fw := w
 		if dryOut.Panic == "" {
@@ -250,4 +257,78 @@ func c11history(fw Op, seq []Op, rep *hx.Report, sets *hx.SetAdder) {
 		rep.HarnessErr = err.Error()
 	}
 	rep.Inc("histories", 1)
+}
+
+// c11sameObject: the caller keeps ONE long-lived (non-recycling) validator object, a validation with it
+// is aborted by the k-th format check panicking, the caller recovers and goes on using the same
+// object. Every later call must return what a never-disturbed validator returns (the fault position
+// is passed once: the counting registry does not fault again).
+func c11sameObject(w Op, K int, rep *hx.Report, sets *hx.SetAdder) {
+	build := func(reg strfmt.Registry) func(any) hx.Outcome {
+		switch w.Kind {
+		case "against", "recyc", "plain":
+			sch, err := parseSpecSchema(w.Def)
+			if err != nil {
+				return nil
+			}
+			v := validate.NewSchemaValidator(sch, nil, w.Root, reg)
+			return func(x any) hx.Outcome { return resultOutcome(v.Validate(x)) }
+		case "param":
+			p, err := parseParam(w.Def)
+			if err != nil {
+				return nil
+			}
+			v := validate.NewParamValidator(p, reg)
+			return func(x any) hx.Outcome { return resultOutcome(v.Validate(x)) }
+		case "header":
+			h := new(spec.Header)
+			if json.Unmarshal([]byte(w.Def), h) != nil {
+				return nil
+			}
+			v := validate.NewHeaderValidator("X-H", h, reg)
+			return func(x any) hx.Outcome { return resultOutcome(v.Validate(x)) }
+		}
+		return nil
+	}
+	value := func() any {
+		if w.Kind == "param" || w.Kind == "header" {
+			return goValue(w.Val)
+		}
+		return goValueOrJSON(w.Val)
+	}
+	resetPools()
+	clean := build(strfmt.Default)
+	if clean == nil {
+		return
+	}
+	want := clean(value())
+	for k := 1; k <= K; k++ {
+		resetPools()
+		calls := 0
+		run := build(faultRegistry{Registry: strfmt.Default, calls: &calls, k: k})
+		func() {
+			defer func() { recover() }()
+			run(value())
+		}()
+		for again := 1; again <= 3; again++ {
+			rep.Inc("same_object_calls", 1)
+			got := func() (o hx.Outcome) {
+				defer func() {
+					if r := recover(); r != nil {
+						o = hx.Outcome{Panic: panicText(r)}
+					}
+				}()
+				return run(value())
+			}()
+			sets.Add("outcomes", got.Key())
+			if d := outcomeDiff(got, want); d != "" {
+				rep.AddViolation(hx.Violation{
+					Signature: fmt.Sprintf("same validator object after a recovered panic: %s(%s)", w.Kind, w.Def),
+					What:      fmt.Sprintf("a long-lived validator for %s whose validation of %s was aborted by the format checker panicking at call %d is used again (call %d after the panic): %s", w.Def, w.Val, k, again, d),
+					Replay:    map[string]any{"workload": w, "fault_at": k, "call_after_panic": again},
+				})
+				return
+			}
+		}
+	}
 }
